@@ -582,6 +582,26 @@ func registerFSWorld(e *Engine) {
 				return withCrash(c, crashed, nil)
 			}
 		}
+		if pf := c.St.fs().Files[h.File].Path; pf.Const && strings.HasPrefix(pf.S, "pipe:[") && c.St.Ghost[fmt.Sprintf("pipedrain:%d", h.File)] == nil {
+			// a pipe holds at most 64 KiB; a write beyond that blocks until somebody reads it
+			// (a thread inside io.Copy on the read end drains it; without one: forever)
+			gk := fmt.Sprintf("pipewrite:%d:%d", c.Th.ID, len(c.Th.Frames))
+			if _, decided := c.St.Ghost[gk]; !decided {
+				total := intArith("+", StrLenInt(StrConcat(c.St.fs().Files[h.File].Data...)), StrLenInt(data))
+				over := intCmp(">", total, IntC(65536))
+				fidx := h.File
+				return c.outcomesNoRet(c.sol2(), []Outcome{
+					{Cond: Not(over), Eff: func(st *State) { st.Ghost[gk] = True; st.Threads[c.Th.ID].top().IP-- }},
+					{Cond: over, Eff: func(st *State) {
+						th := st.Threads[c.Th.ID]
+						th.top().IP--
+						st.Events = append(st.Events, Event{Kind: "pipe-full", Args: []Value{pf}, Thr: th.ID})
+						e.block(st, th, &BlockCond{Kind: "pipe-drain", Obj: fidx})
+					}},
+				})
+			}
+			delete(c.St.Ghost, gk)
+		}
 		crashed := e.fsAppend(c, h.File, data)
 		if !h.Append && data.Const {
 			h.RdChunk += len(data.S)
@@ -610,6 +630,9 @@ func registerFSWorld(e *Engine) {
 		}
 		h.Closed = true
 		c.St.Heap[obj] = Opaque{Kind: "os.File", Data: h}
+		if pf := c.St.fs().Files[h.File].Path; !h.ReadOnly && pf.Const && strings.HasPrefix(pf.S, "pipe:[") {
+			c.St.Ghost[fmt.Sprintf("pipeclosed:%d", h.File)] = True
+		}
 		return c.Return(Iface{})
 	}
 }
